@@ -46,6 +46,21 @@ def r1(ctx):
     ps = [c for c in ctx.prog.calls_in(run.node) if u(c.func) == "phase_single_individual"]
     ok = len(ps) == 1 and [u(a) for a in ps[0].args[:3]] == ["readset", "phasable_variant_table", "sample"]
     ctx.ob(run.qual, "solver-gets-the-reduced-table", ok, run.loc(), "phase_single_individual works on the reduced table" if ok else "phase_single_individual does not receive the reduced table")
+    # the table's rows are the positions of the read set that is actually handed to the solver:
+    # no redefinition of `readset` between subset_rows_by_position(readset.get_positions()) and the solver call
+    sub = [c for c in ctx.prog.calls_in(run.node) if u(c.func) == "phasable_variant_table.subset_rows_by_position"]
+    okr = len(sub) == 1 and len(ps) == 1 and u(sub[0].args[0]) == "readset.get_positions()"
+    bad = None
+    if okr:
+        n_sub, n_ps = cfg.node_containing(sub[0]), cfg.node_containing(ps[0])
+        okr = cfg.dominates(n_sub, n_ps)
+        for s_, v_ in util.assignments_to(run.node, "readset"):
+            if isinstance(s_, ast.stmt) and id(s_) in cfg.by_stmt:
+                d = cfg.node_of(s_)
+                if cfg.find_path(n_sub, d, avoid_nodes=[n_ps]) is not None and cfg.find_path(d, n_ps, avoid_nodes=[n_sub]) is not None:
+                    bad = cfg.find_path(n_sub, n_ps)
+                    okr = False
+    ctx.ob(run.qual, "table-rows-match-the-solvers-readset", okr, run.loc(sub[0]) if sub else run.loc(), "the table is cut to the positions of the read set that reaches the solver (readset is not redefined in between), so genotype k belongs to matrix column k" if okr else "`readset` is filtered again after the variant table was cut to its positions: the genotype list and the allele matrix columns can be shifted against each other", cfg.describe_path(bad))
 
 
 def r2(ctx):
@@ -74,6 +89,26 @@ def r2(ctx):
         if ch:
             bad = cfg.find_path(cfg.node_of(ch[0]), cfg.node_of(rets[0]), avoid_nodes=[cfg.node_of(fg[0])], avoid_edges=free)
     ctx.ob(rt.qual, "enforcement-on-every-trusted-path", ok and okr and bad is None, rt.loc(), "with trusted genotypes every path from compute_haplotypes to the return passes force_genotypes" if ok and okr and bad is None else "the returned haplotypes can bypass force_genotypes with trusted genotypes", cfg.describe_path(bad))
+    # force_genotypes compares EVERY allele present on a haplotype with its genotype multiplicity
+    fgf = ctx.func(TH + ".force_genotypes")
+    fcfg = ctx.cfg(fgf)
+    diffs = [n for n in walk_function(fgf.node) if isinstance(n, ast.Assign) and u(n.targets[0]) == "diff"]
+    okd = len(diffs) == 1
+    why = "abundance computation `diff = present[a] - genotypes[pos][a]` not found"
+    if okd:
+        lp = diffs[0]
+        while lp is not None and not isinstance(lp, ast.For):
+            lp = lp.parent
+        it = u(lp.iter) if lp is not None else None
+        a = u(lp.target) if lp is not None else "?"
+        universe = util.single_def(fgf.node, it) if lp is not None and isinstance(lp.iter, ast.Name) else None
+        from_genotype = universe is not None and isinstance(universe, ast.SetComp) and u(universe.generators[0].iter) == "genotypes[pos]"
+        adds = [c for c in ctx.prog.calls_in(fgf.node) if u(c.func) == "%s.add" % it and c.args and u(c.args[0]) == "h[pos]"]
+        from_haps = len(adds) == 1 and isinstance(util.stmt_of(adds[0]).parent, ast.For) and u(util.stmt_of(adds[0]).parent.iter) == "haplotypes"
+        zero = any(isinstance(s_, ast.Assign) and u(s_.targets[0]) == "genotypes[pos][%s]" % a and u(s_.value) == "0" and ("%s in genotypes[pos]" % a, False) in guard_atoms(fcfg, fcfg.node_of(s_)) for s_ in ast.walk(lp)) if lp is not None else False
+        okd = from_genotype and from_haps and zero and u(diffs[0].value) == "present[%s] - genotypes[pos][%s]" % (a, a)
+        why = "the allele universe is %s (genotype alleles: %s, alleles present on haplotypes: %s, absent alleles counted as multiplicity 0: %s)" % (it, from_genotype, from_haps, zero)
+    ctx.ob(fgf.qual, "every-present-allele-is-compared-with-the-genotype", okd, fgf.loc(diffs[0]) if diffs else fgf.loc(), "force_genotypes computes present - wanted for every allele of the genotype AND every allele present on a haplotype (wanted = 0 if the genotype lacks it)" if okd else "force_genotypes does not compare every allele present on a haplotype with the genotype: an allele foreign to the input genotype survives in the output; " + why)
     # caller passes the flag and the genotypes through
     pb = ctx.func(AL + ".phase_single_block")
     rc = [c for c in ctx.prog.calls_in(pb.node) if u(c.func) == "run_threading"]
@@ -174,4 +209,4 @@ RULES = [
     ("C15.R4", "VCF pass-through: shared writer rules (C04.R1-R3, R5)", r4),
     ("C15.R5", "block results aggregated in block order for any thread count", r5),
 ]
-FLOORS = {"C15.R1": 5, "C15.R2": 8, "C15.R3": 6, "C15.R4": 38, "C15.R5": 5}
+FLOORS = {"C15.R1": 6, "C15.R2": 9, "C15.R3": 6, "C15.R4": 38, "C15.R5": 5}
